@@ -953,6 +953,8 @@ pub struct Evaluator<'a> {
     pub opts: EvalOpts,
     /// number of sub-results that were not judged (widened to ALL)
     pub not_judged: std::cell::Cell<u32>,
+    /// why (reason -> count)
+    pub reasons: std::cell::RefCell<std::collections::BTreeMap<&'static str, u32>>,
 }
 
 fn set_not(s: RSet) -> RSet {
@@ -1261,11 +1263,16 @@ fn conv_str(v: &DocVal) -> Option<String> {
 
 impl<'a> Evaluator<'a> {
     pub fn new(rule: &'a RefRule, opts: EvalOpts) -> Self {
-        Evaluator { rule, opts, not_judged: std::cell::Cell::new(0) }
+        Evaluator { rule, opts, not_judged: std::cell::Cell::new(0), reasons: Default::default() }
     }
 
     fn nj(&self) -> RSet {
+        self.njr("other")
+    }
+
+    fn njr(&self, why: &'static str) -> RSet {
         self.not_judged.set(self.not_judged.get() + 1);
+        *self.reasons.borrow_mut().entry(why).or_insert(0) += 1;
         ALL
     }
 
@@ -1368,7 +1375,7 @@ impl<'a> Evaluator<'a> {
                     if let RVal::List(_) = b.0[0].val {
                         // a single entry whose value is a list: README and C08 disagree on what
                         // is counted
-                        return self.nj();
+                        return self.njr("quantifier over single-entry identifier with list value");
                     }
                 }
                 b.0.iter().map(|e| self.eval_entry(e, doc)).collect()
@@ -1389,7 +1396,7 @@ impl<'a> Evaluator<'a> {
     pub fn eval_entry(&self, e: &REntry, obj: &DObj) -> RSet {
         let v = match self.lookup(obj, &e.field) {
             Ok(v) => v,
-            Err(()) => return self.nj(), // key is not a well-formed path
+            Err(()) => return self.njr("key is not a well-formed path"),
         };
         match &e.modifier {
             KeyMod::Not => {
@@ -1411,10 +1418,10 @@ impl<'a> Evaluator<'a> {
                 if let Some(DocVal::Arr(_)) = v {
                     // quantified list against an array field: documentation and engine disagree
                     // on whether one element has to satisfy all members
-                    return self.nj();
+                    return self.njr("quantified key list on array field");
                 }
                 if k3_shape(ms, &e.modifier) {
-                    return self.nj();
+                    return self.njr("K3 shape");
                 }
                 let ops: Vec<RSet> =
                     ms.iter().map(|m| self.eval_member(&KeyMod::None, m, v, &e.field)).collect();
@@ -1445,7 +1452,7 @@ impl<'a> Evaluator<'a> {
                     if b.0.len() == 1 && matches!(b.0[0].modifier, KeyMod::All) {
                         // K7: a block that is exactly one all(k) list is evaluated per member
                         // across elements
-                        return self.nj();
+                        return self.njr("K7 shape");
                     }
                     let mut any_obj = false;
                     let mut can_t = false;
